@@ -273,7 +273,9 @@ type faultCase struct {
 	// Logger: a har.Logger with body logging is installed as request and
 	// response modifier (it snapshots bodies through messageview).
 	Logger bool `json:"logger"`
-	Idx    int  `json:"idx"`
+	// Body: the faulted request carries a body ("cl" / "chunked"; "" = GET).
+	Body string `json:"body,omitempty"`
+	Idx  int    `json:"idx"`
 }
 
 func runTruncBatch(r *vh.Run, child int, tcp bool) {
@@ -288,7 +290,7 @@ func runTruncBatch(r *vh.Run, child int, tcp bool) {
 			}
 			for _, v := range variants {
 				idx++
-				fc := faultCase{Kind: "trunc", Fault: "trunc", R: ri, RName: c.Name, K: k, Pipelined: v&1 == 1, Warm: v&2 == 2, Logger: (idx/truncBatches)%2 == 1, Idx: idx}
+				fc := faultCase{Kind: "trunc", Fault: "trunc", R: ri, RName: c.Name, K: k, Pipelined: v&1 == 1, Warm: v&2 == 2, Logger: (idx/truncBatches)%2 == 1, Body: []string{"", "", "cl", "chunked"}[(idx/(2*truncBatches))%4], Idx: idx}
 				if tcp {
 					// a sample of the enumeration over loopback TCP, sequential clients only
 					if idx%r.Pick(16, 24) != 0 {
@@ -333,7 +335,7 @@ func runFaultBatch(r *vh.Run) {
 			for i := 0; i < m; i++ {
 				idx++
 				v := i % 4
-				fc := faultCase{Kind: "fault", Fault: f, Pipelined: v&1 == 1 && !tcp, Warm: v&2 == 2, TCP: tcp, Logger: i%8 >= 4, Idx: idx}
+				fc := faultCase{Kind: "fault", Fault: f, Pipelined: v&1 == 1 && !tcp, Warm: v&2 == 2, TCP: tcp, Logger: i%8 >= 4, Body: []string{"", "cl", "chunked"}[(i/2)%3], Idx: idx}
 				r.Case(fc)
 				runFaultCase(r, fc)
 				if stopEarly(r) {
@@ -342,6 +344,152 @@ func runFaultBatch(r *vh.Run) {
 			}
 		}
 	}
+}
+
+// burstCase: many upstream dials fail on ONE proxy instance (over one or
+// several client connections), then a healthy request must still be served.
+type burstCase struct {
+	Kind  string `json:"kind"` // "burst"
+	N     int    `json:"n"`    // failing requests
+	Conns int    `json:"conns"`
+	Err   string `json:"err"` // refused | dialerr | dial-timeout | mixed
+	Idx   int    `json:"idx"`
+}
+
+func runBurstBatch(r *vh.Run) {
+	n := r.Pick(3, 12)
+	for i := 0; i < n; i++ {
+		c := burstCase{Kind: "burst", N: 70 + 15*(i%3), Conns: []int{1, 4, 9}[i%3], Err: []string{"refused", "mixed", "dial-timeout", "dialerr"}[i%4], Idx: i}
+		r.Case(c)
+		runBurstCase(r, c)
+		if stopEarly(r) {
+			return
+		}
+	}
+}
+
+func runBurstCase(r *vh.Run, c burstCase) {
+	rng := r.Rng("c03-burst", c.Idx)
+	nonce := fmt.Sprintf("%08x", rng.Uint32())
+	mod := &recMod{}
+	env, err := h1x.Start(h1x.Opts{ResMod: mod})
+	if err != nil {
+		r.Inconclusive("harness: cannot start proxy/origin", err.Error())
+		return
+	}
+	defer func() {
+		if !env.Close() {
+			r.Count("teardown_slow", 1)
+		}
+	}()
+	env.RouteOrigin("origin.test:80")
+	env.Origin.Handle = func(conn, idx int, m *h1x.Msg) h1x.Action {
+		resp, _, _ := healthy(nonce, "ok")
+		return h1x.Action{Write: resp}
+	}
+	var dmu sync.Mutex
+	dials := 0
+	env.Route("bad.test:80", func() (net.Conn, error) {
+		dmu.Lock()
+		dials++
+		k := dials
+		dmu.Unlock()
+		kind := c.Err
+		if kind == "mixed" {
+			kind = []string{"refused", "dialerr", "dial-timeout"}[k%3]
+		}
+		switch kind {
+		case "refused":
+			return nil, &net.OpError{Op: "dial", Net: "tcp", Err: syscall.ECONNREFUSED}
+		case "dial-timeout":
+			return nil, &net.OpError{Op: "dial", Net: "tcp", Err: dialTimeout{}}
+		}
+		return nil, errors.New("harness: custom dial failure")
+	})
+	var cls []*h1x.Client
+	for i := 0; i < c.Conns; i++ {
+		cl, err := env.L.Dial(nil)
+		if err != nil {
+			r.Inconclusive("harness: cannot dial proxy", err.Error())
+			return
+		}
+		defer cl.Close()
+		cls = append(cls, cl)
+	}
+	counts := make([]int, c.Conns) // responses expected so far per connection
+	r.Eval(1)
+	report := func(clause, what string, fp string) {
+		r.ViolationCase(c, "C03:"+clause+":dial-failure-burst", what, map[string]interface{}{"dials_so_far": dials, "stacks": trunc(fp, 3000)})
+	}
+	exchange := func(k int, req []byte, want502 bool, what string) bool {
+		cl := cls[k]
+		if err := cl.Send(req, nil); err != nil {
+			report("follow-up", what+": the connection was closed", "")
+			return false
+		}
+		counts[k]++
+		need := counts[k]
+		complete := func() (bool, *h1x.Msg) {
+			v := cl.View()
+			off := 0
+			var m *h1x.Msg
+			for i := 0; i < need; i++ {
+				m = h1x.ParseResponse(v.Data[off:], "GET", v.Closed)
+				if m.Outcome != h1x.StComplete {
+					return false, m
+				}
+				off += m.Len
+			}
+			return true, m
+		}
+		out, fp := h1x.AwaitCond(func() bool {
+			if cl.View().Closed {
+				return true
+			}
+			ok, _ := complete()
+			return ok
+		}, func() string { return cl.Activity() + " " + env.Origin.Activity() })
+		switch out {
+		case vh.Stuck:
+			report("hang", what+": never answered; the proxy is quiescent with the request pending", fp)
+			return false
+		case vh.Undecided:
+			r.SetCase(c)
+			r.Inconclusive("watchdog: exchange still active after 90 s ("+what+")", trunc(fp, 2000))
+			return false
+		}
+		ok, m := complete()
+		if !ok {
+			report("follow-up", fmt.Sprintf("%s: no complete response (outcome=%s stage=%s) and the connection was closed", what, m.Outcome, m.Stage), "")
+			return false
+		}
+		if want502 {
+			if m.Status != 502 || first(m.Get("Warning")) == "" || first(m.Get("X-Resmod")) == "" {
+				report("no-502", fmt.Sprintf("%s: status=%d Warning=%q X-Resmod=%q", what, m.Status, m.Get("Warning"), m.Get("X-Resmod")), "")
+				return false
+			}
+			return true
+		}
+		_, mark, body := healthy(nonce, "ok")
+		if m.Status != 200 || first(m.Get("X-Marker")) != mark || !bytes.Equal(m.Body, body) {
+			report("follow-up", fmt.Sprintf("%s: not served: status=%d", what, m.Status), "")
+			return false
+		}
+		return true
+	}
+	for i := 0; i < c.N; i++ {
+		req := []byte("GET http://bad.test/fault/" + strconv.Itoa(i) + " HTTP/1.1\r\nHost: bad.test\r\n\r\n")
+		if !exchange(i%c.Conns, req, true, fmt.Sprintf("failing request %d of %d", i+1, c.N)) {
+			return
+		}
+	}
+	for k := 0; k < c.Conns; k++ {
+		if !exchange(k, []byte("GET http://origin.test/healthy/ok HTTP/1.1\r\nHost: origin.test\r\n\r\n"), false, fmt.Sprintf("healthy request after %d failed dials (connection %d)", c.N, k)) {
+			return
+		}
+	}
+	r.Class(fmt.Sprintf("burst|%s|conns=%d|n=%d|all-502-then-served", c.Err, c.Conns, c.N))
+	r.Count("burst_failed_dials_answered_502", int64(c.N))
 }
 
 func healthy(nonce, tag string) (resp []byte, marker string, body []byte) {
@@ -491,6 +639,30 @@ func runFaultCase(r *vh.Run, c faultCase) {
 	}
 	reqW := mkReq("origin.test", "/healthy/W")
 	reqA := mkReq(faultHost, "/fault/"+nonce)
+	if c.Body != "" && !isConnect {
+		// the faulted request is an upload
+		bl := []int{0, 1, 17, 900, 5000}[rng.Intn(5)]
+		body := vh.Stamp(0xB0D1, bl)
+		head := "POST http://" + faultHost + "/fault/" + nonce + " HTTP/1.1\r\nHost: " + faultHost + "\r\nContent-Type: application/octet-stream\r\n"
+		if c.Body == "cl" {
+			reqA = append([]byte(head+"Content-Length: "+strconv.Itoa(bl)+"\r\n\r\n"), body...)
+		} else {
+			var cb bytes.Buffer
+			cb.WriteString(head + "Transfer-Encoding: chunked\r\n\r\n")
+			for off := 0; off < bl; {
+				n := 1 + rng.Intn(1500)
+				if off+n > bl {
+					n = bl - off
+				}
+				fmt.Fprintf(&cb, "%x\r\n", n)
+				cb.Write(body[off : off+n])
+				cb.WriteString("\r\n")
+				off += n
+			}
+			cb.WriteString("0\r\n\r\n")
+			reqA = cb.Bytes()
+		}
+	}
 	if isConnect {
 		reqA = []byte("CONNECT " + faultHost + ":80 HTTP/1.1\r\nHost: " + faultHost + ":80\r\n\r\n")
 	}
@@ -575,6 +747,9 @@ func runFaultCase(r *vh.Run, c faultCase) {
 			}
 			if c.Logger {
 				tr += "+har-logger"
+			}
+			if c.Body != "" && !isConnect {
+				mode += "+upload-" + c.Body
 			}
 			r.Class(fmt.Sprintf("%s|%s|%s|%s|%s|%s", framing, reg, mode, up, tr, outcome))
 			r.Count("fault_cases_judged", 1)
